@@ -4,6 +4,7 @@ row for, when the edge is safe by the shape of the loop alone).
 Rule: inside `for i in A..B` with A an integer literal and B = `<c>.len()` (plus/minus an integer literal D), an index expression `<c>[i + C]` / `<c>[i - C]` on the
 same container `<c>` (C a literal) cannot go out of bounds when A + C >= 0 and D + C <= 0 (then 0 <= i + C <= B - 1 + C <= len - 1); `i - C` cannot underflow
 when A >= C; `i + C` cannot overflow a usize while i < len. Anything else is left to the table (not discharged)."""
+import re
 import hir
 
 
@@ -81,6 +82,12 @@ def safe_sites(fn_rec):
             visit(e["iter"], loops)
             visit(e["body"], new)
             return
+        if k == "mcall" and e["m"] == "len_of" and len(e["args"]) == 1:
+            # `a.len_of(Axis(c))` with a literal c below the array's (static) number of dimensions cannot abort
+            ax = _strip(e["args"][0])
+            m_ = re.search(r"Dim<\[usize; (\d+)\]>", (e["recv"].get("ty") or ""))
+            c_ = _lit(ax["args"][0]) if ax.get("k") == "call" and len(ax.get("args", [])) == 1 and (ax["f"].get("def") or "").endswith("Axis") else None
+            ((ok if (m_ and c_ is not None and 0 <= c_ < int(m_.group(1))) else bad)).add((e.get("ln"), "len_of"))
         if k == "mcall" and e["m"] in ("windows", "chunks_exact") and len(e["args"]) == 1 and (_lit(e["args"][0]) or 0) >= 1:
             ok.add((e.get("ln"), "windows"))          # a literal, non-zero window size never panics
         if k == "mcall" and e["m"] in ("all", "any", "for_each", "map", "position", "find", "filter") and len(e["args"]) == 1 and _strip(e["args"][0]).get("k") == "closure":
@@ -129,4 +136,6 @@ def kind_class(kind):
         return "add"
     if kind in ("ext:slice::windows", "ext:slice::chunks_exact"):
         return "windows"
+    if kind == "ext:impl_methods::len_of":
+        return "len_of"
     return None
